@@ -11,7 +11,7 @@ EXTENDS Naturals, Integers, Sequences, FiniteSets
 
 CONSTANTS BufLen,      \* buf_len >= 2
           StartIdx,    \* initial value of readi = writei
-          ProdProg,    \* sequence of [k |-> "put"|"putchar", d |-> byte]
+          ProdProg,    \* sequence of [k |-> "put"|"putchar"|"empty", d |-> byte]  (ringbuf_empty is a role-neutral query: "was the ring idle?")
           ConsProg,    \* sequence of "get" | "empty"
           Discipline
 
@@ -32,7 +32,7 @@ Call(n, r) == [n |-> n, r |-> r]
 Inc(i) == IF i + 1 >= geo.len THEN i + 1 - geo.len ELSE i + 1
 Occ == (writei + geo.len - readi) % geo.len      \* unread bytes
 
-PcOfP(g, i) == IF i > Len(g.pp) THEN "Done" ELSE "PutLoadW"
+PcOfP(g, i) == IF i > Len(g.pp) THEN "Done" ELSE IF g.pp[i].k = "empty" THEN "PEmptyLoadR" ELSE "PutLoadW"
 PcOfC(g, i) == IF i > Len(g.cp) THEN "Done" ELSE IF g.cp[i] = "get" THEN "GetLoadR" ELSE "EmptyLoadR"
 
 Start(g) ==
@@ -107,6 +107,20 @@ PutPub ==
   /\ Sched(P, PcOfP(geo, iP + 1)) /\ Obs(P, "store", "writei", <<Call("put", 1)>>)
   /\ UNCHANGED <<readi, mem, lw, nw, pcC, iC, lr, gotSeq>>
 
+(* ringbuf_empty called by the producer: the same two loads (nw holds the loaded readi) *)
+PEmptyLoadR ==
+  /\ pcP = "PEmptyLoadR" /\ Runnable(P)
+  /\ nw' = readi
+  /\ pcP' = "PEmptyLoadW"
+  /\ Sched(P, "x") /\ Obs(P, "load", "readi", <<>>)
+  /\ UNCHANGED <<readi, writei, mem, iP, lw, pcC, iC, lr, putSeq, gotSeq>>
+
+PEmptyLoadW ==
+  /\ pcP = "PEmptyLoadW" /\ Runnable(P)
+  /\ iP' = iP + 1 /\ pcP' = PcOfP(geo, iP + 1)
+  /\ Sched(P, PcOfP(geo, iP + 1)) /\ Obs(P, "load", "writei", <<Call("empty", IF nw = writei THEN 1 ELSE 0)>>)
+  /\ UNCHANGED <<readi, writei, mem, lw, nw, pcC, iC, lr, putSeq, gotSeq>>
+
 (* ------------------------------- consumer ------------------------------- *)
 GetLoadR ==
   /\ pcC = "GetLoadR" /\ Runnable(C)
@@ -155,7 +169,7 @@ EmptyLoadW ==
   /\ Sched(C, PcOfC(geo, iC + 1)) /\ Obs(C, "load", "writei", <<Call("empty", IF lr = writei THEN 1 ELSE 0)>>)
   /\ UNCHANGED <<readi, writei, mem, pcP, iP, lw, nw, lr, putSeq, gotSeq>>
 
-PStep == PutLoadW \/ PutLoadR \/ PutStore \/ PutPub
+PStep == PutLoadW \/ PutLoadR \/ PutStore \/ PutPub \/ PEmptyLoadR \/ PEmptyLoadW
 CStep == GetLoadR \/ GetLoadW \/ GetRead \/ GetPub \/ EmptyLoadR \/ EmptyLoadW
 Step(c) == IF c = P THEN PStep ELSE CStep
 Next == PStep \/ CStep
@@ -165,6 +179,7 @@ Spec == Init /\ [][Next]_vars
 (* Properties (C05) *)
 IsPrefix(a, b) == Len(a) <= Len(b) /\ \A i \in 1..Len(a) : a[i] = b[i]
 
+PEmptyJustified == [][(pcP = "PEmptyLoadW" /\ nw = writei) => Occ = 0]_vars     \* the producer's own view: "empty" only if it was
 TypeOK == readi \in 0..(geo.len-1) /\ writei \in 0..(geo.len-1) /\ lw \in 0..(geo.len-1) /\ lr \in 0..(geo.len-1)
 
 (* the bytes returned are exactly the bytes published, in order, nothing lost or duplicated *)
